@@ -12,6 +12,20 @@ def accept_tasks(f):
             continue
         if any(fn and fn["name"] == "accept" and ("Listener" in fn["path"] or "Listener" in str(fn.get("resolved"))) for bb, t, fn in b.calls()):
             out.append(b)
+    if out:
+        return out
+    # the loop may live in a private async helper shared by the transports, with `listener.accept()` handed in as a closure:
+    # then the accept task is the spawned coroutine whose scope (helpers and closures looked through) reaches accept()
+    for b in f.bodies:
+        if not b.j.get("coroutine_kind") or "::test" in b.path:
+            continue
+        parent = f.body(b.j.get("parent")) if b.j.get("parent") else None
+        if parent is None or not parent.j.get("coroutine_kind"):
+            continue
+        spawned = any(fn and fn["name"] == "spawn" for bb, t, fn in parent.calls())
+        if spawned and any(fn and fn["name"] == "accept" and ("Listener" in fn["path"] or "Listener" in str(fn.get("resolved")))
+                           for k in pathq.scope(f, b, allow_async=True) for bb, t, fn in k.calls()):
+            out.append(b)
     return out
 
 
@@ -42,19 +56,26 @@ def check_accept_loop(f, rep, rule, b, key_prefix):
     """The accept loop never awaits the connection callback: its only suspension points are the select over
     accept()/stop (and, for IPC, the unlink after the loop); the callback's future is handed to spawn."""
     aw = awaits(b)
-    for a in aw:
-        nm = (a["poll_name"] or a["fut_ty"] or "")
+    # every future the task polls - in its own body or in a private async helper looked through - is the select or the unlink
+    polled = {}
+    for p in pathq.paths(f, b, max_visits=2, inline_async=True):
+        for ev in p.events:
+            if pathq.is_poll(ev) and ev.extra != "inlined":
+                polled.setdefault(ev.name, ev)
+    for nm, ev in sorted(polled.items()):
         ok = "PollFn" in nm or "remove_file" in nm
         rep.check(ok, rule, "%s|%s|await|%s" % (key_prefix, b.path, short(nm) or nm[:30]),
                   "the accept task awaits only its select over accept()/stop%s - never the per-connection callback (awaited: %s)" % (
-                      " and the unlink of the socket file" if "ipc" in b.path else "", nm[:80]), a["loc"])
+                      " and the unlink of the socket file" if "ipc" in b.path else "", nm[:80]), b.loc(ev.bb) if ev.fnpath == b.path else None)
+    rep.floor(rule, "%s: futures polled by the accept task" % b.path.split("::")[2], len(polled), 1)
     spawned = 0
     inline = 0
-    for p in pathq.paths(f, b, max_visits=2):
+    for p in pathq.paths(f, b, max_visits=2, inline_async=True):
         for i, ev in enumerate(p.events):
             if ev.kind == "call" and ev.extra != "inlined" and not pathq.is_poll(ev):
                 # the callback is a captured Fn: calling it shows up as Fn::call on a captured field
-                if short(ev.name) in ("call", "call_mut", "call_once") and ev.args and any(isinstance(x, tuple) and x and x[0] == "field" and x[1] == ("arg", 1) for x in walk_expr(ev.args[0])):
+                if short(ev.name) in ("call", "call_mut", "call_once") and ev.args and any(
+                        isinstance(x, tuple) and x and x[0] == "field" and x[1] == ("arg", 1) and "FramedIo" in str(x[3]) for x in walk_expr(ev.args[0])):
                     fut = ev.result
                     later = [e2 for e2 in p.events[i + 1:] if e2.kind == "call" and short(e2.name) == "spawn" and e2.args and any(y == fut for y in walk_expr(e2.args[0]))]
                     polled = [e2 for e2 in p.events[i + 1:] if e2.kind == "call" and short(e2.name) in ("into_future", "poll") and e2.args and any(y == fut for y in walk_expr(e2.args[0]))]
@@ -65,7 +86,7 @@ def check_accept_loop(f, rep, rule, b, key_prefix):
     # the listener lives as long as the task: the task ends only through the stop arm - a failed accept() (EMFILE, a reset
     # connection) is passed on like any other outcome and the loop goes on
     nret = 0
-    for p in pathq.paths(f, b, max_visits=2):
+    for p in pathq.paths(f, b, max_visits=2, inline_async=True):
         if p.end != "return":
             continue
         nret += 1
